@@ -2,14 +2,24 @@ import BSModel.Driver.Util
 import BSModel.Model.Render
 import BSModel.Model.Reparse
 import BSModel.Gen.Render
+import BSModel.Model.Entities
+import BSModel.Gen.Entities
 /-! line protocol of C05 (rendering and re-parsing)
 
     c05 render <flavour> <fmt> <tbl> <tree>   code-mirror `decode()` and `decode_contents()` of every tag of the tree in
                                               pre-order:  D:<cps>;C:<cps> | …
     c05 rspec  <flavour> <fmt> <tbl> <tree>   the same through `renderSpec`/`renderL`
     c05 trip   <flavour> <fmt> <tree>         the root's children as a forest:
-                                              repr=<0|1> # emit=<events> # norm=<forest> # build=<forest> # norm2=<forest>
+                                              repr=<0|1> # emit=<events> # norm=<forest> # build=<forest> # norm2=<forest> # repr2=<0|1> # dst=<0|1 DoctypeStable> # grow=<n: characters the text gains on the second trip>
+    c05 top <rootAttr> <chain> <arg> <tbl> <tree>   `decode(formatter=arg)` incl. `formatter_for_name`/`_is_xml`:  D:<cps> | KeyError
+    c05 sor <rootAttr> <chain> <arg|None> <tbl> <pname|N> <cls> <cps>   `string.output_ready(arg)`:  D:<cps> | KeyError
+    c05 doctype <name|N> <pub|N> <sys|N>      `Doctype._string_for_name_and_ids` (tokens: N = None, e = "", else cps)
     c05 subst <cps> | c05 quote <cps>         `substitute_xml`, `quoted_attribute_value`
+
+    chain   := - | <k>.<k>…      `known_xml` from the element up to its root: N | T | F
+    arg     := n:none | n:<cps>                                  registry key
+             | c:<kind>                                          a callable (kind 1/2/3 = the EntitySubstitution functions, 9 = graph in tbl)
+             | o:<kind>:<void cps|->:<cdata tag;tag (dotted)|->:<0|1>   a Formatter object
 
     flavour := h | x          (HTMLFormatter.REGISTRY / XMLFormatter.REGISTRY, generated)
     fmt     := none | <cps of the registry key>
@@ -108,10 +118,26 @@ def parseTbl (s : String) : List (PStr × PStr) :=
 def substOf (kind : Nat) (tbl : List (PStr × PStr)) : Option (PStr → PStr) :=
   if kind = 0 then none
   else if kind = 1 then some substXml
+  else if kind = 2 then some (BS.Entities.substHtml BS.Gen.C09.htmlTable)      -- C09's model of substitute_html
+  else if kind = 3 then some (BS.Entities.substHtml5 BS.Gen.C09.htmlTable)     -- C09's model of substitute_html5
   else some fun s => (lookupL tbl s).getD [63, 33]
 
+def fmtEnv (tbl : List (PStr × PStr)) : FmtEnv :=
+  ⟨BS.Gen.C05.registryOf, BS.Gen.C05.ctorDefaults, fun k => substOf k tbl⟩
+
+def parseChain (s : String) : List (Option Bool) :=
+  (splitNE "." s).map fun t => if t == "T" then some true else if t == "F" then some false else none
+
+def parseArg (s : String) (tbl : List (PStr × PStr)) : Option FmtArg :=
+  match s.splitOn ":" with
+  | ["n", k] => some (.name (if k == "none" then none else some (cps k)))
+  | ["c", k] => (substOf k.toNat! tbl).map FmtArg.fn
+  | ["o", k, v, cd, eb] =>
+    some (.obj ⟨substOf k.toNat! tbl, cps v, (splitNE ";" cd).map undots, eb == "1"⟩)
+  | _ => none
+
 def findSpec (flavour : String) (fmt : String) : Option FmtSpec :=
-  let reg := if flavour == "x" then BS.Gen.Render.xmlRegistry else BS.Gen.Render.htmlRegistry
+  let reg := if flavour == "x" then BS.Gen.C05.xmlRegistry else BS.Gen.C05.htmlRegistry
   let key : Option PStr := if fmt == "none" then none else some (cps fmt)
   (reg.find? (fun e => e.1 == key)).map (·.2)
 
@@ -126,7 +152,7 @@ def tagsOfL : List Node → List Node
   | n :: ns => tagsOf n ++ tagsOfL ns
 end
 
-def ci := BS.Gen.Render.liveClsInfo
+def ci := BS.Gen.C05.liveClsInfo
 
 def renderAll (spec : Bool) (f : Fmt) (root : Node) : String :=
   " | ".intercalate ((tagsOf root).map fun n =>
@@ -145,11 +171,11 @@ def showEv : TEv → String
   | .special c s => s!"P/{codeOf c}/{dots s}"
 
 def trip (f : Fmt) (root : Node) : String :=
-  let p := BS.Gen.Render.livePCfg
+  let p := BS.Gen.C05.livePCfg
   let ds := root.kids
   let evs := emitRL f ds
   let nrm := normaliseL p f ds
-  s!"repr={bit (representableL p f false ds)} # emit={"|".intercalate (evs.map showEv)} # norm={showForest nrm} # build={showForest (build p evs)} # norm2={showForest (normaliseL p f nrm)} # repr2={bit (representableL p f false nrm)}"
+  s!"repr={bit (representableL p f ds)} # emit={"|".intercalate (evs.map showEv)} # norm={showForest nrm} # build={showForest (build p evs)} # norm2={showForest (normaliseL p f nrm)} # repr2={bit (representableL p f nrm)} # dst={bit (dstableL p (ctxOf p [rootFrame]) false ds)} # grow={grow p (ctxOf p [rootFrame]) ds}"
 
 def withTree (toks : List String) (k : Node → String) : String :=
   match parseNode (toks.length + 1) toks with
@@ -169,6 +195,22 @@ def handle : List String → String
     match findSpec fl fm with
     | some s => withTree rest (trip (mkFmt s []))
     | none => "no-such-formatter"
+  | "top" :: ra :: ch :: arg :: tbl :: rest =>
+    match parseArg arg (parseTbl tbl) with
+    | some a => withTree rest fun n =>
+        match decodeTop ci (fmtEnv (parseTbl tbl)) (ra == "1") (parseChain ch) a n with
+        | some d => "D:" ++ showL d
+        | none => "KeyError"
+    | none => "bad-arg"
+  | ["sor", ra, ch, arg, tbl, pn, c, s] =>
+    let a : Option (Option FmtArg) := if arg == "None" then some none else (parseArg arg (parseTbl tbl)).map some
+    match a with
+    | none => "bad-arg"
+    | some a =>
+      match strOutputReady ci (fmtEnv (parseTbl tbl)) (ra == "1") (parseChain ch) a (parsePfx pn) (clsOf c.toNat!) (cps s) with
+      | some d => "D:" ++ showL d
+      | none => "KeyError"
+  | ["doctype", n, pb, sy] => showL (doctypeString (parsePfx n) (parsePfx pb) (parsePfx sy))
   | ["subst", s] => showL (substXml (cps s))
   | ["quote", s] => showL (quoteAttr (cps s))
   | _ => "bad-op"
